@@ -49,6 +49,7 @@ class DiffusionCurve:
     permeate_pressure: typing.Optional[float] = None
     permeances: typing.Optional[typing.List[typing.Tuple[Permeance, Permeance]]] = None
     comments: typing.Optional[str] = None
+    calculation_type: str = "NRTL"
 
     def __attrs_post_init__(self):
 
@@ -61,7 +62,12 @@ class DiffusionCurve:
             :return a list of Partial fluxes for each component tuple(Ji,Jj) at each concentration
             """
             feed_partial_pressures = [
-                get_partial_pressures(self.feed_temperature, self.mixture, composition)
+                get_partial_pressures(
+                    self.feed_temperature,
+                    self.mixture,
+                    composition,
+                    self.calculation_type,
+                )
                 for composition in self.feed_compositions
             ]
 
@@ -96,7 +102,12 @@ class DiffusionCurve:
             """
             permeate_compositions = self.permeate_composition
             feed_partial_pressures = [
-                get_partial_pressures(self.feed_temperature, self.mixture, composition)
+                get_partial_pressures(
+                    self.feed_temperature,
+                    self.mixture,
+                    composition,
+                    self.calculation_type,
+                )
                 for composition in self.feed_compositions
             ]
             if self.permeate_temperature is None and self.permeate_pressure is None:
@@ -118,7 +129,10 @@ class DiffusionCurve:
             ):
                 permeate_partial_pressures = [
                     get_partial_pressures(
-                        self.permeate_temperature, self.mixture, composition
+                        self.permeate_temperature,
+                        self.mixture,
+                        composition,
+                        self.calculation_type,
                     )
                     for composition in permeate_compositions
                 ]
